@@ -70,7 +70,7 @@ func (c *Ctx) classOfField(owner *types.Named, f *types.Var) FieldClass {
 		return Unclassified
 	}
 	if owner != nil {
-		if cl, ok := fieldClassTable[owner.Obj().Name()+"."+recordedFieldName(f)]; ok {
+		if cl, ok := fieldClassTable[objName(owner.Obj())+"."+recordedFieldName(f)]; ok {
 			return cl
 		}
 		// AST node structs: every yang-tagged field is containment except the Parent slot
